@@ -32,6 +32,8 @@ VERUS_VERSION = '0.2026.09.13'
 VERIF_FAIL = [
     ('postcondition not satisfied', 'postcondition'),
     ('precondition not satisfied', 'precondition-at-call'),
+    ('precondition not met: index in bounds', 'bounds'),
+    ('precondition not met', 'precondition-at-call'),
     ('assertion failed', 'assertion'),
     ('possible arithmetic underflow/overflow', 'overflow'),
     ('possible bit shift underflow/overflow', 'shift-overflow'),
